@@ -504,8 +504,38 @@ pub fn many_threads_at_once<C: Send + Sync + 'static>(cases: Vec<C>, rounds: usi
                         std::thread::yield_now();
                     }
                     let mut i = ni;
+                    const ALTS: [&str; 8] = ["~", "=>", "isa", "-->>", "is-a>", "=isa=>", "\u{2282}", "\u{662f}\u{4e00}\u{4e2a}"];
                     while !done.load(Ordering::Relaxed) {
-                        prelude(crate::names::ALL_FMT[i % 3]);
+                        let g = crate::names::ALL_FMT[i % 3];
+                        prelude(g);
+                        // ... and formats that differ from a shipped one in one copula, of eight different lengths
+                        let _ = observe(|| {
+                            let mut uf = permuted_formats(g).swap_remove(0);
+                            uf.statement.copula_inheritance = ALTS[(i / 3) % ALTS.len()];
+                            let text = format!("{}A {} B{}", uf.statement.brackets.0, uf.statement.copula_inheritance, uf.statement.brackets.1);
+                            let _ = uf.parse::<Narsese>(&text);
+                        });
+                        // ... and user-built lexical formats with other character predicates (total ones)
+                        let _ = observe(|| {
+                            use narsese::conversion::string::impl_lexical::format_instances::*;
+                            fn letters_only(c: char) -> bool {
+                                c.is_alphabetic()
+                            }
+                            fn digits_only(c: char) -> bool {
+                                c.is_ascii_digit() || c == '-'
+                            }
+                            let mut lf = match g {
+                                Fmt::Ascii => create_format_ascii(),
+                                Fmt::Latex => create_format_latex(),
+                                Fmt::Han => create_format_han(),
+                            };
+                            lf.atom.is_identifier = letters_only;
+                            lf.sentence.is_stamp_content = digits_only;
+                            let e = g.e();
+                            let text = format!("{}ab{} cd{}{} {}12{}", e.compound.brackets_set_extension.0, e.compound.separator, e.compound.brackets_set_extension.1, e.sentence.punctuation_judgement, e.sentence.stamp_brackets.0.to_string() + e.sentence.stamp_fixed, e.sentence.stamp_brackets.1);
+                            let _ = lf.parse(&text);
+                            let _ = lf.parse_term(&text);
+                        });
                         i += 1;
                     }
                 })
@@ -678,6 +708,61 @@ pub fn something_fails_first(i: usize) {
             });
             let _ = Term::new_product(it);
         });
+        // user-built lexical formats whose blank / identifier / stamp predicates panic in the middle of an input
+        for which in 0..5 {
+            let _ = observe(|| {
+                use narsese::conversion::string::impl_lexical::format_instances::*;
+                let mut lf = match f {
+                    Fmt::Ascii => create_format_ascii(),
+                    Fmt::Latex => create_format_latex(),
+                    Fmt::Han => create_format_han(),
+                };
+                fn blank(c: char) -> bool {
+                    if c == '\u{2620}' {
+                        panic!("user-supplied blank predicate gives up");
+                    }
+                    c.is_whitespace()
+                }
+                match which {
+                    0 => lf.space.is_for_parse = blank,
+                    1 => lf.atom.is_identifier = poke_char_pred,
+                    2 => lf.sentence.is_stamp_content = poke_char_pred,
+                    3 => lf.sentence.is_truth_content = poke_char_pred,
+                    _ => lf.task.is_budget_content = poke_char_pred,
+                }
+                let e = f.e();
+                let text = format!("{}ab {} cd\u{2620}ef{}{} {}12\u{2620}", e.statement.brackets.0, e.statement.copula_inheritance, e.statement.brackets.1, e.sentence.punctuation_judgement, e.sentence.stamp_fixed);
+                let _ = lf.parse(&text);
+                let _ = lf.parse_term(&text);
+                let text2 = format!("{}0\u{2620}5{} ab{} {}1\u{2620}9{}", e.task.budget_brackets.0, e.task.budget_brackets.1, e.sentence.punctuation_judgement, e.sentence.truth_brackets.0, e.sentence.truth_brackets.1);
+                let _ = lf.parse(&text2);
+            });
+        }
+        let _ = observe(|| {
+            // a user-supplied Hasher that gives up in the middle of hashing a term with unordered parts
+            use narsese::enum_narsese::Term;
+            struct Budgeted(usize);
+            impl std::hash::Hasher for Budgeted {
+                fn finish(&self) -> u64 {
+                    0
+                }
+                fn write(&mut self, bytes: &[u8]) {
+                    if self.0 < bytes.len() {
+                        panic!("user hasher gives up");
+                    }
+                    self.0 -= bytes.len();
+                }
+            }
+            let inner = Term::new_set_extension(vec![Term::new_word("p"), Term::new_word("q"), Term::new_word("r")]);
+            let t = Term::new_intersection_extension(vec![inner, Term::new_similarity(Term::new_word("s"), Term::new_word("t")), Term::new_word("u")]);
+            for budget in [1usize, 9, 17, 40, 90] {
+                let t = &t;
+                let _ = std::panic::catch_unwind(std::panic::AssertUnwindSafe(move || {
+                    let mut h = Budgeted(budget);
+                    std::hash::Hash::hash(t, &mut h);
+                }));
+            }
+        });
         let _ = observe(|| {
             // the public string templates all formatters share, fed by a user iterator that panics after two items
             let mut out = String::new();
@@ -696,5 +781,19 @@ pub fn something_fails_first(i: usize) {
             let _ = Term::to_image_extension_with_placeholder(vec![Term::new_word("r"), Term::new_word("x")]);
             let _ = Term::to_image_intension_with_placeholder(vec![Term::new_word("r"), Term::new_word("x")]);
         });
+    }
+}
+
+
+/// `something_fails_first` for callers without a context: every `every`-th call on this thread does it
+pub fn something_fails_first_every(every: usize) {
+    thread_local! { static N: std::cell::Cell<usize> = const { std::cell::Cell::new(0) }; }
+    let n = N.with(|c| {
+        let v = c.get();
+        c.set(v + 1);
+        v
+    });
+    if n % every.max(1) == 0 {
+        something_fails_first(n / every.max(1));
     }
 }
